@@ -435,5 +435,5 @@ static void wlGraph31() {
 
 } // namespace
 
-HX_WORKLOAD("C30", "graph", wlGraph30, SF_ALL, 6000000, 6000000, 1);
-HX_WORKLOAD("C31", "graph-partial", wlGraph31, SF_ALL, 6000000, 6000000, 1);
+HX_WORKLOAD("C30", "graph", wlGraph30, SF_ALL | SF_TSO, 6000000, 6000000, 1);
+HX_WORKLOAD("C31", "graph-partial", wlGraph31, SF_ALL | SF_TSO, 6000000, 6000000, 1);
